@@ -1,6 +1,6 @@
 ----------------------------- MODULE MC_Base64 -----------------------------
-(* TLC-only definitions for Base64: bounded input spaces, the decomposition lemmas as state spaces
-   (one symbol appended per step, because TLC refuses sets above 10^6), and vector / table emission. *)
+(* TLC-only definitions for Base64: bounded input spaces, the decoder-model run and vector emission
+   (the decomposition lemmas and the tables are in MC_Base64Tab). *)
 EXTENDS Base64, Json
 
 CONSTANTS Sigma,      \* symbols (ASCII codes) for the decoder model / decode vectors
@@ -12,6 +12,8 @@ Bytes == 0..255
 AlphaSyms == { Alpha[i] : i \in 0..63 }
 Sym68 == AlphaSyms \cup {PAD, 45, 95, 32}           \* alphabet, `=`, `-`, `_`, space
 FewBytes == {0, 255}
+Mix32 == { (i * 37) % 256 : i \in 0..31 }     \* 32 byte values with varied bit patterns
+TwoSyms == {65, PAD}
 FewSyms == {65, 47, PAD, 32}    \* A / = space
 
 SeqsUpTo(S, n) == UNION { [1..k -> S] : k \in 0..n }
@@ -22,43 +24,8 @@ Init == InitOn(Texts)
 Spec == Init /\ [][Next]_vars /\ WF_vars(Next)
 Terminates == <>(res # "run")
 
-\* ---- 2. encoder decomposition lemma: Enc(<<a,b,c>>) = JoinEnc(a,b,c) on EA x EB x EC
-LemInit(X, Y) == text \in { <<x, y>> : x \in X, y \in Y } /\ gi = 0 /\ out = <<>> /\ res = "lemma"
-LemNext(n, Z) == /\ Len(text) < n
-                 /\ \E z \in Z : text' = Append(text, z)
-                 /\ UNCHANGED <<gi, out, res>>
-EncInit == LemInit(EA, EB)
-EncNext == LemNext(3, EC)
-EncLemma == Len(text) = 3 => Enc(text) = JoinEnc(text[1], text[2], text[3])
-\* and for the short inputs: Enc of 1 and 2 bytes round-trips (the 3-byte case is covered by Dec lemma + tables)
-EncShort == Len(text) = 2 => RoundTrip(text) /\ RoundTrip(<<text[1]>>)
-EncRound == Len(text) = 3 => RoundTrip(text)
-
-\* ---- 3. decoder decomposition lemma: DecAllowed(q) = JoinDec(q) on P1 x P2 x P3 x P4
-DecInit == LemInit(P1, P2)
-DecNext == \/ (Len(text) = 2 /\ LemNext(4, P3))
-           \/ (Len(text) = 3 /\ LemNext(4, P4))
-DecLemma == Len(text) = 4 => DecAllowed(text) = JoinDec(text)
-\* the repaired decoder model agrees with the denotation on the same space (single-group texts)
-DecAlgoLemma == Len(text) = 4 => AlgoDec(text, {}) \in DecAllowed(text)
-
-\* ---- 4. emission
-\* tables for the harness-side exhaustive sweeps
-TabInit == text = <<>> /\ gi = 0 /\ out = <<>> /\ res = "tables"
-TabNext == FALSE /\ UNCHANGED vars
-TabInv == res = "tables" =>      \* (state-level on purpose: a constant-level definition would be evaluated, and printed, by every run)
-  /\ PrintT(ToJson([k |-> "enc_tables", s1 |-> [a \in 1..256 |-> S1[a - 1]], s4 |-> [a \in 1..256 |-> S4[a - 1]],
-                    s2 |-> [a \in 1..256 |-> [b \in 1..256 |-> S2[a - 1][b - 1]]],
-                    s3 |-> [a \in 1..256 |-> [b \in 1..256 |-> S3[a - 1][b - 1]]]]))
-  /\ PrintT(ToJson([k |-> "dec_tables",
-                    sym |-> [ch \in 1..256 |-> [cls |-> Cls(ch - 1), v |-> Val[ch - 1]]],
-                    sym68 |-> Sym68,
-                    d1 |-> [x \in 1..64 |-> [y \in 1..64 |-> D1[x - 1][y - 1]]],
-                    d2 |-> [x \in 1..64 |-> [y \in 1..64 |-> D2[x - 1][y - 1]]],
-                    d3 |-> [x \in 1..64 |-> [y \in 1..64 |-> D3[x - 1][y - 1]]],
-                    canon2 |-> [x \in 1..64 |-> Canon2[x - 1]], canon3 |-> [x \in 1..64 |-> Canon3[x - 1]],
-                    shapes |-> { [sh |-> sh, verdict |-> ShapeVerdict(sh)] : sh \in [1..4 -> {"a", "p", "b"}] }]))
-
+\* ---- 2. emission of vectors
+VecNext == FALSE /\ UNCHANGED vars
 \* encode vectors: every 1- and 2-byte input (one line per first byte), every length 0..64 with two contents
 FillBytes(n, k) == [i \in 1..n |-> (i * 37 + k * 101 + n * 7) % 256]
 EncVecInit == text \in { <<a>> : a \in Bytes } \cup { <<300, n>> : n \in 0..64 } /\ gi = 0 /\ out = <<>> /\ res = "encvec"
@@ -83,9 +50,4 @@ DecVecInv == PrintT(ToJson([k |-> "dec", t |-> text, allowed |-> DecAllowed(text
                             lax |-> AlgoDec(text, {"B64LaxPadding"}),
                             asfound |-> AlgoDec(text, DevNames)]))
 
-\* all emission in one run
-GenAllInit == TabInit \/ EncVecInit \/ DecVecInit
-GenAllInv == /\ TabInv
-             /\ (res = "encvec" => EncVecInv)
-             /\ (res = "decvec" => DecVecInv)
 =============================================================================
